@@ -114,7 +114,7 @@ def gen_cases(rng, tier, scale):
         args = [arg(rng, 3) for _ in range(arity)]
         keys = rng.sample(['k', 'j', 'key2', 'zeta', 'alpha'], hn)
         hargs = [(key, arg(rng, 2)) for key in keys]
-        form = rng.choice(['expr', 'expr', 'block', 'blockelse', 'blockbp', 'subexpr'])
+        form = rng.choice(['expr', 'expr', 'block', 'blockelse', 'blockbp', 'subexpr', 'chainbp'])
         argsrc = ' '.join(a[0] for a in args)
         hsrc = ''.join(f' {k_}={a[0]}' for k_, a in hargs)
         ptxt = ','.join(a[1] for a in args)
@@ -136,6 +136,12 @@ def gen_cases(rng, tier, scale):
             # ... optionally followed by the whitespace-control tilde (the only token the grammar allows there)
             tl = rng.choice(['', '', '~', ' ~'])
             tpl = '{{#dump ' + argsrc + hsrc + (' as |first second|' if two else ' as |only|') + tl + '}}body{{/dump}}'
+            flags, bp = 'BTi', ('2' + x('first') + ',' + x('second')) if two else ('1' + x('only'))
+        elif form == 'chainbp':
+            # the same as a link of an else-chain (`{{else dump .. as |a b|}}`): the link helper receives its own
+            # arguments, hash, body and block-parameter names
+            two = rng.random() < 0.5
+            tpl = '{{#if zz}}no{{else dump ' + argsrc + hsrc + (' as |first second|' if two else ' as |only|') + '}}body{{/if}}'
             flags, bp = 'BTi', ('2' + x('first') + ',' + x('second')) if two else ('1' + x('only'))
         else:
             if arity + hn == 0:
